@@ -24,6 +24,20 @@ void vp_assert(int c, int id) { if (!c) { std::printf("VP_ASSERT_FAILED %d\n", i
 void vp_reach(int id) { std::printf("VP_REACH %d\n", id); }
 void vp_log(int tag, long a, long b, long c) { std::printf("VP_LOG %d %ld %ld %ld\n", tag, a, b, c); }
 void vp_scenario(int id) { std::printf("VP_SCENARIO %d\n", id); }
+// the capture file written by the simulation in the current directory
+static std::vector<unsigned char> g_file; static bool g_file_loaded = false;
+static void load_file()
+{
+	if (g_file_loaded) return;
+	g_file_loaded = true;
+	FILE* f = std::fopen("vp_capture.pcap", "rb");
+	if (!f) return;
+	int c;
+	while ((c = std::fgetc(f)) != EOF) g_file.push_back((unsigned char)c);
+	std::fclose(f);
+}
+long vp_file_size(void) { load_file(); return long(g_file.size()); }
+int vp_file_byte(long i) { load_file(); if (i < 0 || i >= long(g_file.size())) { std::printf("VP_ASSERT_FAILED 9999\n"); return 0; } return g_file[std::size_t(i)]; }
 int harness_main(void);
 }
 int main(int argc, char** argv)
